@@ -10,6 +10,7 @@
 package interp
 
 import (
+	"go/token"
 	"go/types"
 )
 
@@ -18,6 +19,11 @@ const jwtPkg = "github.com/golang-jwt/jwt/v4"
 type jwtShape struct {
 	aud, iss, alg int
 	sigOK, fresh  bool
+	// a client assertion (StubAssertion): subject and issuer are client numbers (issuer 0: no iss
+	// claim), signed RS256 with the private key of client number signer; the signature verifies
+	// exactly with that client's public key (identified by the modelled key's E)
+	assertion        bool
+	sub, signer      int
 }
 
 func structField(v value, t types.Type, name string) *value {
@@ -34,11 +40,84 @@ func init() {
 		}
 		return nil
 	}
+	externals["(*"+verifhPkg+".H).StubAssertion"] = func(fr *frame, args []value) value {
+		p := fr.i.path
+		p.env.jwt = &jwtShape{assertion: true, sub: int(p.concInt(args[1], "sub")), iss: int(p.concInt(args[2], "iss")), signer: int(p.concInt(args[3], "signer")), fresh: p.concBool(args[4])}
+		return nil
+	}
+	// the public key of client k, as the PEM text the harness registers ("VERIF-PUBLIC-KEY-k")
+	externals["github.com/mimiro-io/datahub/internal/security.ParseRsaPublicKeyFromPem"] = func(fr *frame, args []value) value {
+		bs, _ := args[0].([]value)
+		txt := ""
+		for _, c := range bs {
+			b, ok := c.(uint8)
+			if !ok {
+				panic(unsupported{"ParseRsaPublicKeyFromPem of symbolic bytes"})
+			}
+			txt += string(rune(b))
+		}
+		const pfx = "VERIF-PUBLIC-KEY-"
+		if len(txt) != len(pfx)+1 || txt[:len(pfx)] != pfx {
+			return tuple{(*value)(nil), iface{errorType, "failed to parse PEM block containing the key"}}
+		}
+		kt := lookupNamed(fr.i.prog, "crypto/rsa", "PublicKey")
+		kv := zero(kt).(structure)
+		*structField(kv, kt, "E") = int64(txt[len(pfx)] - '0')
+		var cell value = kv
+		return tuple{&cell, iface{}}
+	}
+	externals[jwtPkg+".NewNumericDate"] = func(fr *frame, args []value) value {
+		nt := lookupNamed(fr.i.prog, jwtPkg, "NumericDate")
+		nv := zero(nt).(structure)
+		*structField(nv, nt, "Time") = args[0]
+		var cell value = nv
+		return &cell
+	}
+	// NewWithClaims / SignedString: the text of a minted token names its subject (that is all a
+	// harness reads back from it)
+	externals[jwtPkg+".NewWithClaims"] = func(fr *frame, args []value) value {
+		tokT := lookupNamed(fr.i.prog, jwtPkg, "Token")
+		tok := zero(tokT).(structure)
+		*structField(tok, tokT, "Method") = args[0]
+		*structField(tok, tokT, "Claims") = args[1]
+		var cell value = tok
+		return &cell
+	}
+	externals["(*"+jwtPkg+".Token).SignedString"] = func(fr *frame, args []value) value {
+		tokT := lookupNamed(fr.i.prog, jwtPkg, "Token")
+		tok := (*args[0].(*value)).(structure)
+		if kp, ok := args[1].(iface); !ok || kp.t == nil {
+			return tuple{"", iface{errorType, "key is invalid"}}
+		} else if pv, isPtr := kp.v.(*value); isPtr && pv == nil {
+			return tuple{"", iface{errorType, "key is invalid"}}
+		}
+		claims := (*structField(tok, tokT, "Claims")).(iface)
+		rcT := lookupNamed(fr.i.prog, jwtPkg, "RegisteredClaims")
+		cv := claims.v
+		if cp, ok := cv.(*value); ok {
+			cv = *cp
+		}
+		ct := claims.t
+		if pt, ok := ct.(*types.Pointer); ok {
+			ct = pt.Elem()
+		}
+		var rc structure
+		if types.Identical(ct, rcT) {
+			rc = cv.(structure)
+		} else {
+			rc = (*structField(cv, ct, "RegisteredClaims")).(structure)
+		}
+		sub, _ := (*structField(rc, rcT, "Subject")).(string)
+		return tuple{"minted-for:" + sub, iface{}}
+	}
 	externals[jwtPkg+".ParseWithClaims"] = func(fr *frame, args []value) value {
 		p := fr.i.path
 		sh := p.env.jwt
 		if sh == nil {
 			panic(unsupported{"jwt.ParseWithClaims without a StubJWT shape"})
+		}
+		if sh.assertion {
+			return parseAssertion(fr, sh, args)
 		}
 		tokT := mustDeref(fr.fn.Signature.Results().At(0).Type())
 		tok := zero(tokT).(structure)
@@ -99,4 +178,55 @@ func init() {
 		}
 		return tuple{&tcell, iface{errorType, msg}}
 	}
+}
+
+// parseAssertion: ParseWithClaims over a client assertion (see jwtShape).
+func parseAssertion(fr *frame, sh *jwtShape, args []value) value {
+	tokT := mustDeref(fr.fn.Signature.Results().At(0).Type())
+	tok := zero(tokT).(structure)
+	*structField(tok, tokT, "Raw") = args[0]
+	mt := lookupNamed(fr.i.prog, jwtPkg, "SigningMethodRSA")
+	mv := zero(mt).(structure)
+	*structField(mv, mt, "Name") = "RS256"
+	var mcell value = mv
+	*structField(tok, tokT, "Method") = iface{types.NewPointer(mt), &mcell}
+	claims := args[1].(iface)
+	*structField(tok, tokT, "Claims") = claims
+	name := func(k int) string { return "client-" + string(rune('0'+k)) }
+	if cp, ok := claims.v.(*value); ok && cp != nil {
+		ct := mustDeref(claims.t)
+		rcT := lookupNamed(fr.i.prog, jwtPkg, "RegisteredClaims")
+		var rc structure
+		if types.Identical(ct, rcT) {
+			rc = (*cp).(structure)
+		} else {
+			rc = (*structField(*cp, ct, "RegisteredClaims")).(structure)
+		}
+		*structField(rc, rcT, "Subject") = name(sh.sub)
+		if sh.iss != 0 {
+			*structField(rc, rcT, "Issuer") = name(sh.iss)
+		}
+	}
+	var tcell value = tok
+	// the key function decides which key the signature is checked with
+	res := call(fr.i, fr, token.NoPos, args[2], []value{&tcell}).(tuple)
+	if e, ok := res[1].(iface); ok && e.t != nil {
+		return tuple{&tcell, res[1]}
+	}
+	key, _ := res[0].(iface)
+	kt := lookupNamed(fr.i.prog, "crypto/rsa", "PublicKey")
+	kp, isPtr := key.v.(*value)
+	if key.t == nil || !isPtr || kp == nil || !types.Identical(mustDeref(key.t), kt) {
+		return tuple{&tcell, iface{errorType, "key is of invalid type"}}
+	}
+	e, _ := (*structField(*kp, kt, "E")).(int64)
+	switch {
+	case int(e) != sh.signer:
+		return tuple{&tcell, iface{errorType, "crypto/rsa: verification error"}}
+	case !sh.fresh:
+		return tuple{&tcell, iface{errorType, "token is expired"}}
+	}
+	*structField(tok, tokT, "Valid") = true
+	tcell = tok
+	return tuple{&tcell, iface{}}
 }
